@@ -31,10 +31,11 @@ def suites : List Suite := [iosxe, iosxr, nxos, nxosS, eos, eosS, junos, junosFu
 
 def suite (n : String) : Suite := (suites.find? (·.name == n)).getD ⟨"", ⟨"", [], .emp⟩, []⟩
 
-/-- obligation `k = 0`: detection; `k + 1`: level `k` of the table -/
+/-- obligation 0: detection, 1: classified by the whole share group, 2: by no other level -/
 def Suite.ob (s : Suite) (i k : Nat) : RE :=
   match k with
   | 0 => detOb s.table (nthMode s.modes i)
-  | k + 1 => levelOb s.table (nthMode s.modes i) k
+  | 1 => ownOb s.table (nthMode s.modes i)
+  | _ => forOb s.table (nthMode s.modes i)
 
 end Scrapli.C05
